@@ -8,6 +8,21 @@ CLAIMED = {
    note="Trusted: Coq kernel, ExtrOcamlBasic extraction + OCaml driver, the Python/Rust correspondence harness, std's BufReader::read_until (exercised, not modelled). The model is hand-written from src/xargs/mod.rs and validated differentially on every run.",
    technique="Coq proof (induction over chunks/bytes) + model-vs-implementation differential correspondence",
    design="5 C05"),
+ "C04": dict(
+   text="Coq theorems about an executable model of the xargs limiter chain and process_input (interleaved with executions): the run factors into pure batching followed by execution; the batches are lossless, ordered, within all of -n/-L/-s/system limits simultaneously, greedy-maximal, with the empty-input and too-large rules, for every argument sequence and option combination. Tied to /repo by running xargs_main in-process (recorder hook) and the real binary against the extracted model.",
+   note="Trusted: Coq kernel, extraction, harness; Command::args/argv composition and the reader (C05) are exercised, not part of these theorems.",
+   technique="Coq proof (generic greedy-loop invariant + limiter-chain refinement) + differential correspondence",
+   design="5 C04"),
+ "C19": dict(
+   text="Coq theorems over the same xargs model: with no fatal child outcome all batches run and the status is 0 iff all exited 0, else 123; the first fatal outcome (255, signal, cannot run, not found) stops the run at once with 124/125/126/127 and exactly that many invocations; own errors give 1. For every finite outcome sequence. Tied to /repo by scripted outcomes through the executor hook and by real children.",
+   note="Trusted: Coq kernel, extraction, harness; std's ExitStatus decoding and spawn error kinds are exercised with real children, not modelled.",
+   technique="Coq proof (induction over outcome sequences) + differential correspondence",
+   design="5 C19"),
+ "C20": dict(
+   text="Coq theorems: -I forces one argument per run, so the runs are the input lines in order; str::replace's model replaces every leftmost non-overlapping occurrence and leaves all other text (declarative relation Repl); nothing appended; empty input runs nothing with status 0; with -I/-n/-L all given the last one is in force. Tied to /repo by in-process runs over option orders, replacement strings and lines.",
+   note="Trusted: Coq kernel, extraction, harness; clap's option indices and std's str::replace are modelled and compared on every case.",
+   technique="Coq proof + differential correspondence",
+   design="5 C20"),
 }
 ALL = ["C%02d" % i for i in range(1, 21)]
 def main():
